@@ -9,6 +9,9 @@ block-inclusion paths for all h < r) and "c08chain" (the chains: block h produce
      commit, at the end and after close + reopen every served cross-state proof / block proof is verified with
      merkle.MerkleProve against GetCrossStateRoot(h) (= header h+1's field) / header r's BlockRoot and must yield the stored
      record / block h's hash; roots and proof bytes are compared with the evaluated spec terms (drift if only those differ).
+  2b. (quick 4 / thorough 16) of the chains are cut by a hard process exit between the store commits of a record-carrying block
+     (child process, ledgerstore.VerifCrashHook); the parent reopens the directory (recovery replays the block), verifies every
+     served proof of every height incl. the replayed one, continues the chain, verifies again, reopens, verifies again.
   3. Table "c08nest": NativeService.Invoke's handling of the leaf list across nested NativeCalls is transcribed (callee's leaves
      first, then the caller's earlier ones; a failed frame contributes nothing); TLC checks for every script shape that exactly the
      records registered by successful frames are leaves, once each, and provable; one real block per shape is committed and
@@ -56,7 +59,16 @@ def run(ctx):
     perm = list(range(K + 1))
     random.Random(ctx.seed).shuffle(perm)
     allk = [c for c in long_chains[:num]] + [perm[:K]] + [perm[1:] if len(perm) > 1 else perm]
-    inp = rows + [{"tag": "ROW", "v": {"chain": c}} for c in chains + allk]
+    # crash + recovery inside some chains: a stuttering step of the chain abstraction (C12 decides recovery itself); here the
+    # REPLAYED block's records / hash must be served like any other's.  The block that is being submitted when the process
+    # dies carries >= 1 record; the two crash points lie between the three store commits.
+    rnd = random.Random(ctx.seed * 31 + 7)
+    crashes = []
+    cands = [c for c in (allk + chains) if any(k >= 1 for k in c)]
+    for i, c in enumerate(cands[:(4 if q else 16)]):
+        at = rnd.choice([j + 1 for j, k in enumerate(c) if k >= 1])
+        crashes.append({"chain": c, "at": at, "point": ("submit:after-block-commit", "submit:after-event-commit")[i % 2]})
+    inp = rows + [{"tag": "ROW", "v": {"chain": c}} for c in chains + allk] + [{"tag": "ROW", "v": {"crash": c}} for c in crashes]
     out = ctx.driver(b, ["c08"], input_obj=inp, timeout=2400)
     s = summary(out)
     if not s:
@@ -75,6 +87,9 @@ def run(ctx):
     ctx.sample({"chains": chains[:3], "long": allk[0]})
     ctx.sample({"row": rows[3]["v"]})
     ctx.cov["nested_call_blocks"] = s.get("nested_call_blocks", 0)
+    ctx.cov["crash_recovery_chains"] = s.get("crash_recovery_chains", 0)
+    if s.get("crash_recovery_chains", 0) != len(crashes):
+        ctx.fail("crash chains run: %s of %d" % (s.get("crash_recovery_chains"), len(crashes)))
     ctx.note("%d chains, %d block commits on a real ledger (%d with nested calls)" % (s["chains"], s["commits"], s.get("nested_call_blocks", 0)))
     return ctx.finish(rule="P-REPLAY: all chains of %d blocks over the record-count alphabet of the cfg, %d simulated chains of %d blocks "
                       "with counts 0..%d and two chains that contain every count; distinct_nontrivial = distinct (labelling, k, i) "
